@@ -23,6 +23,7 @@ pub fn check() -> Check {
         run_shard,
         replay,
         prepare: Some(prepare),
+        prepare_replay: Some(|v| super::declcommon::prepare_replay_features("C16", v, false)),
         quick_limit_s: 1800,
         floor_quick: 2_000,
         floor_thorough: 50_000,
@@ -30,7 +31,8 @@ pub fn check() -> Check {
                Oracle (a), per build: the reference editor and dispatch model configured the same way - history off: Up/Down change nothing and emit nothing; autocomplete off: Tab likewise; help off: `help` / `--help` lines reach the handler with the reference tokens; everything else as with all features. \
                Oracle (b), metamorphic across builds: the session with the keys of the disabled facilities deleted, run on the full build, yields byte-identical sink output, handler log and editor states as the original session on the reduced build (with help disabled: only for sessions without help-shaped lines and without Tab on a prefix of `help`). \
                Oracle (c), differential at byte level: sessions that mix raw CR / LF / ESC / `[` bytes around Tab and Up/Down; whenever the keys of a build's disabled facilities happen to be no-ops on the full build (nothing to complete, nothing to recall), that build must produce exactly the full build's trace for the same bytes. \
-               Non-trivial = the session uses at least one key or line of a facility that is disabled in at least one compared build; distinct by (configuration, ops).",
+               (d) programs: generated declarations that use `help`, `-h` and `--help` as ordinary command and option names, compiled with the repository's macros WITHOUT the help feature; lines (with those words also where they are not declared) must parse exactly as the declaration interpreter of C09 says. \
+               Non-trivial = the session uses at least one key or line of a facility that is disabled in at least one compared build (for (d): the line contains help / -h / --help); distinct by (configuration, ops).",
         assumptions: &[
             "completion of prefixes of `help` when the help feature is off is left open (such sessions are not compared across the help axis)",
             "the harness's own trait impls are cfg-gated exactly like the library's traits, so the runner compiles in all 8 configurations on the baseline tree; a build failure for any subset is reported as a violation",
@@ -39,11 +41,31 @@ pub fn check() -> Check {
     }
 }
 
-fn prepare(_tier: Tier, _seed: u64, _dir: &Path) -> Result<Value, PrepError> {
+const HELP_OFF_DECLS: usize = 16;
+
+fn help_off_set(seed: u64) -> vmodel::gencrate::GenSet {
+    vmodel::gencrate::layout_decls_features("C16-helpoff", vec![vmodel::gencrate::declarations_help_off(seed, 0, HELP_OFF_DECLS)], false)
+}
+
+fn prepare(_tier: Tier, seed: u64, _dir: &Path) -> Result<Value, PrepError> {
     let t0 = std::time::Instant::now();
     let out = Command::new(vmodel::rooted("tools/build_features.sh")).output().map_err(|e| PrepError::Inconclusive(format!("cannot run build_features.sh: {}", e)))?;
     if out.status.success() {
-        return Ok(json!({"feature_builds": 8, "build_s": (t0.elapsed().as_secs_f64() * 10.0).round() / 10.0}));
+        // (d) generated declarations that use `help`, `-h`, `--help` as ordinary names, compiled without the help feature
+        let t1 = std::time::Instant::now();
+        if let Err(log) = vmodel::gencrate::build(&help_off_set(seed)) {
+            let canon = vmodel::gencrate::layout_decls_features("C16-helpoff-canonical", vec![vmodel::gencrate::declarations_help_off(0, 0, HELP_OFF_DECLS)], false);
+            return match vmodel::gencrate::build(&canon) {
+                Ok(()) => Err(PrepError::Inconclusive(format!("seed-generated help-off declaration crate does not compile while the canonical one does (generator problem, not a finding):\n{}", log))),
+                Err(clog) => Err(PrepError::Violation(Failure::new(
+                    "feature-build",
+                    json!({"failed": "derive output for declarations using help / -h / --help as ordinary names, built without the help feature"}),
+                    "with the help feature off, commands and options named help / h compile like any others",
+                    clog,
+                ))),
+            };
+        }
+        return Ok(json!({"feature_builds": 8, "build_s": (t1.duration_since(t0).as_secs_f64() * 10.0).round() / 10.0, "help_off_declarations": HELP_OFF_DECLS, "help_off_build_s": (t1.elapsed().as_secs_f64() * 10.0).round() / 10.0}));
     }
     let stdout = String::from_utf8_lossy(&out.stdout).to_string();
     let mut detail = String::new();
@@ -497,9 +519,99 @@ fn run_shard(ctx: &ShardCtx) {
         },
     );
     ctx.exhaustive("all 8 feature subsets built and compared", !ctx.failed());
+    drop(b);
+    run_help_off_decls(ctx);
+}
+
+/// Wrap a token strategy: now and then put `-h` / `--help` somewhere after the name, or ask `help ...`
+fn with_help_words(tokens: BoxedStrategy<Vec<String>>) -> BoxedStrategy<Vec<String>> {
+    (tokens, 0u8..10, any::<u16>(), any::<bool>())
+        .prop_map(|(mut t, k, at, long)| {
+            match k {
+                0 | 1 => {
+                    let pos = 1 + ((at as usize * t.len()) >> 16);
+                    t.insert(pos.min(t.len()), if long { "--help".into() } else { "-h".into() });
+                }
+                2 => t.insert(0, "help".into()),
+                3 => t = vec!["help".into()],
+                _ => {}
+            }
+            t
+        })
+        .boxed()
+}
+
+/// (d) with help off, `help`, `-h` and `--help` are delivered to the derived parser like any other word:
+/// declarations that use them as command / option names, and lines that use them where they are not declared
+fn run_help_off_decls(ctx: &ShardCtx) {
+    use super::c09::judge_opts;
+    use vmodel::decl::Expect;
+    use super::declcommon::{line_strategy, tokens_strategy, Servers};
+    let set = help_off_set(ctx.seed);
+    let servers = Servers::new();
+    let lines = ctx.tier.pick(1200u64, 6000u64);
+    let mut gi = 0u64;
+    for (bin, decls) in &set.crates {
+        for d in decls {
+            gi += 1;
+            if !ctx.mine(gi) || ctx.failed() {
+                continue;
+            }
+            let uses_help_names = serde_json::to_string(d).map(|s| s.contains("\"help\"") || s.contains("\"short\":\"h\"")).unwrap_or(false);
+            ctx.class(if uses_help_names { "help-off declarations declaring help / -h / --help" } else { "help-off declarations without such names" });
+            let strat = line_strategy(with_help_words(tokens_strategy(d)));
+            ctx.run_prop(
+                &format!("helpoff-parse-{}", gi),
+                lines * ctx.nshards as u64,
+                strat,
+                |c| json!({"decl": d, "tokens": c.tokens, "line": c.line, "help_off": true}),
+                |c| {
+                    let reply = servers.ask(bin, &json!({"d": d.id, "kind": "line", "line": c.line})).map_err(|e| Failure::new("helpoff-parse", Value::Null, "the process survives the line", e))?;
+                    match judge_opts(d, c, &reply, false) {
+                        Ok(Some(Expect::Unspec(_))) => {
+                            ctx.skipped();
+                            Ok(())
+                        }
+                        Ok(Some(exp)) => {
+                            let helpish = c.tokens.iter().any(|t| t == "help" || t == "--help" || (t.starts_with('-') && !t.starts_with("--") && t.contains('h')));
+                            if helpish {
+                                ctx.class("help-off lines with help / -h / --help");
+                                ctx.nontrivial(fingerprint(&("helpoff", gi, &c.tokens)), || json!({"build": "history+autocomplete (help off)", "line": c.line, "expected": format!("{:?}", exp)}));
+                            }
+                            Ok(())
+                        }
+                        Ok(None) => Ok(()),
+                        Err((e, o)) => Err(Failure::new("helpoff-parse", Value::Null, format!("build without help: {}", e), o)),
+                    }
+                },
+            );
+        }
+    }
+    if let Some(f) = ctx.res.borrow_mut().failure.as_mut() {
+        if f.check.starts_with("helpoff-parse") {
+            f.check = "helpoff-parse".into();
+        }
+    }
+}
+
+fn replay_help_off(case: &Value) -> Verdict {
+    use super::declcommon::{self, LineCase, Servers};
+    let fail = |e: String, o: String| Failure::new("helpoff-parse", case.clone(), e, o);
+    let mut d: vmodel::decl::Decl = serde_json::from_value(case["decl"].clone()).map_err(|e| fail("a declaration model in the replay file".into(), e.to_string()))?;
+    d.id = 0;
+    let c = LineCase {
+        tokens: case["tokens"].as_array().map(|a| a.iter().map(|s| s.as_str().unwrap_or("").to_string()).collect()).unwrap_or_default(),
+        line: case["line"].as_str().unwrap_or("").to_string(),
+    };
+    let servers = Servers::new();
+    let reply = servers.ask(&declcommon::replay_bin("C16"), &json!({"d": 0, "kind": "line", "line": c.line})).map_err(|e| fail("the process survives the line".into(), e))?;
+    super::c09::judge_opts(&d, &c, &reply, false).map(|_| ()).map_err(|(e, o)| fail(e, o))
 }
 
 fn replay(sub: &str, case: &Value) -> Verdict {
+    if sub == "helpoff-parse" {
+        return replay_help_off(case);
+    }
     let c = case_from_json(case).map_err(|e| Failure::new(sub, case.clone(), "a well-formed case", e))?;
     let mut b = Builds::start().map_err(|e| Failure::new(sub, case.clone(), "feature builds present (run the check once, or setup.sh)", e))?;
     if sub == "feature-matrix-raw" {
